@@ -257,7 +257,11 @@ func (x *Exec) applyContract(st *State, pk *Pkg, fn *ssa.Function, fc *FuncContr
 		}
 	}
 	for _, c := range fc.Ensures {
-		x.assume(o.Implies(st.Guard, x.evalClauseOf(env, c, fc)))
+		t := x.evalClauseOf(env, c, fc)
+		if c.Bound {
+			x.harvestBounds(t)
+		}
+		x.assume(o.Implies(st.Guard, t))
 	}
 	switch len(vals) {
 	case 0:
@@ -443,7 +447,9 @@ func (x *Exec) writeRange(st *State, reg, base *Term, src StrVal, n *Term) {
 	if b := o.Bounds(n); !o.M.BV && b.hi != nil && b.hi.IsInt64() && b.hi.Int64() <= 24 {
 		cur := old
 		for i := int64(0); i < b.hi.Int64(); i++ {
-			cur = o.Ite(o.IdxLt(o.Idx(i), n), o.Store(cur, o.IdxAdd(base, o.Idx(i)), o.SelByte(src.Arr, o.IdxAdd(src.Off, o.Idx(i)))), cur)
+			// value-level conditional: beyond n the old byte is written back
+			at := o.IdxAdd(base, o.Idx(i))
+			cur = o.Store(cur, at, o.Ite(o.IdxLt(o.Idx(i), n), o.SelByte(src.Arr, o.IdxAdd(src.Off, o.Idx(i))), o.SelByte(old, at)))
 		}
 		st.H = o.Store(st.H, reg, cur)
 		return
@@ -471,7 +477,8 @@ func (x *Exec) appendSeq(st *State, dst SliceVal, src StrVal) SliceVal {
 	// a fresh region starts as a copy of the old one
 	oldArr := o.Select(st.H, dst.Reg)
 	if !fits.IsTrue() {
-		st.H = o.Ite(fits, st.H, o.Store(st.H, fresh, oldArr))
+		// the fresh region is initialised unconditionally: it is unreferenced when the append happens in place
+		st.H = o.Store(st.H, fresh, oldArr)
 	}
 	x.writeRange(st, reg, o.IdxAdd(dst.Off, dst.Len), src, src.Len)
 	nc := o.Fresh("cap", o.IdxSort())
@@ -884,3 +891,33 @@ func (x *Exec) specMethodCall(e *SpecEnv, recv SVal, name string, args []Expr) S
 }
 
 var _ = big.NewInt
+
+// harvestBounds: a `bound` clause of a callee constrains only the fresh result symbols of this call (always
+// satisfiable), so its interval facts may be recorded as ranges of those symbols unconditionally.
+func (x *Exec) harvestBounds(t *Term) {
+	o := x.o
+	if o.M.BV {
+		return
+	}
+	var walk func(u *Term)
+	walk = func(u *Term) {
+		switch u.Op {
+		case "and":
+			for _, a := range u.Args {
+				walk(a)
+			}
+		case "<=":
+			a, b := u.Args[0], u.Args[1]
+			if a.Op == "var" && b.IsConst() {
+				cur := o.ranges[a]
+				o.SetRange(a, cur.lo, b.IVal)
+				delete(o.bmemo, a)
+			} else if b.Op == "var" && a.IsConst() {
+				cur := o.ranges[b]
+				o.SetRange(b, a.IVal, cur.hi)
+				delete(o.bmemo, b)
+			}
+		}
+	}
+	walk(t)
+}
